@@ -54,8 +54,8 @@ fn forge_data(r: &mut Rng, s: &uv::VerifSnapshot, cfg: &PairCfg, e: usize) -> uv
         let limit_frags = ((cfg.rx_alloc[e] + MAX_FRAGMENT_SIZE - 1) / MAX_FRAGMENT_SIZE) as u16;
         let (frag, last, len): (u16, u16, usize) = match r.below(12) {
             0 | 1 | 2 => (0, 0, r.below(1449) as usize),
-            3 => (0, 0, 0),
-            4 => (0, 1, 1448),
+            3 => (0, 0, *r.pick(&[0usize, 0, 1449, 1458])),     // empty; longer than a fragment (fits a frame, not a fragment)
+            4 => (*r.pick(&[0u16, 0, 1]), 1, *r.pick(&[1448usize, 1448, 1449, 1458])),
             5 => (1, 1, r.below(1449) as usize),
             6 => (2, 1, 10),                       // frag > last (invalid)
             7 => (0, 2, 100),                      // non-final fragment with short length (invalid)
